@@ -979,14 +979,14 @@ class InBodyPhase(Phase):
                 not self.tree.openElements[-1].hasContent()):
             data = data[1:]
         if data:
-            self.tree.reconstructActiveFormattingElements()
+            self.reconstructFormattingForText()
             self.tree.insertText(data)
 
     def processCharacters(self, token):
         if token["data"] == "\u0000":
             # The tokenizer should always emit null on its own
             return
-        self.tree.reconstructActiveFormattingElements()
+        self.reconstructFormattingForText()
         self.tree.insertText(token["data"])
         # This must be bad for performance
         if (self.parser.framesetOK and
@@ -995,8 +995,14 @@ class InBodyPhase(Phase):
             self.parser.framesetOK = False
 
     def processSpaceCharactersNonPre(self, token):
-        self.tree.reconstructActiveFormattingElements()
+        self.reconstructFormattingForText()
         self.tree.insertText(token["data"])
+
+    def reconstructFormattingForText(self):
+        # The content of a textarea is handled by this phase rather than by
+        # the "text" phase, where formatting elements are never reconstructed
+        if self.tree.openElements[-1].name != "textarea":
+            self.tree.reconstructActiveFormattingElements()
 
     def startTagProcessInHead(self, token):
         return self.parser.phases["inHead"].processStartTag(token)
